@@ -14,7 +14,10 @@ RULE = (
     "object itself; u->v->u and tobase/frombase round trips within 1e-12*S; u->w == u->v->w within 1e-12*S; "
     "order never swapped, strictly kept for clearly separated values; slope>0; the exponent-list form "
     "[(u,e)]->[(v,e)] (e = 2, 3, -2, scale-only units, negative values included) round-trips, keeps the sign and the order; Quantity.ConvertScalarValue(u->v) equals the database's number for every "
-    "pair, also right after an Unknown-quantity lookup of the same target. Non-trivial = u!=v, at least one "
+    "pair, also right after an Unknown-quantity lookup of the same target; Convert(u->v,x) equals the target's from-base "
+    "applied to the source's to-base of the same database, exactly; a user database that reuses shipped symbols with "
+    "other definitions is alive and converting next to the shipped ones (both orders), each answering from its own "
+    "definitions. Non-trivial = u!=v, at least one "
     "side has a conversion, x!=0; distinct key = (config, quantity type, u, v[, w])."
 )
 ASSUMPTIONS = [
@@ -32,6 +35,7 @@ def plan(tier, seed):
     for cfg in CONFIGS:
         for i in range(nparts[cfg]):
             specs.append({"config": cfg, "part": i, "nparts": nparts[cfg], "tier": tier, "seed": seed})
+    specs.append({"config": "cross", "tier": tier, "seed": seed})
     return specs
 
 
@@ -120,6 +124,18 @@ class Sweep:
         n = len(units)
         row = {v: [Convert(qt, u, v, x) for x in values] for v in units}
         ctx.ev(n * len(values))
+        # Convert is nothing but the target's from-base applied to the source's to-base (of THIS database)
+        tb = db.unit_to_unit_info[u].tobase
+        for v in units:
+            if v == u:
+                continue
+            fb = db.unit_to_unit_info[v].frombase
+            for x, y in zip(values, row[v]):
+                ctx.ev()
+                w = fb(tb(x))
+                if y != w and not (y != y and w != w):
+                    ctx.record("convert_differs_from_unit_functions:%s:%s" % (self.cfg, qt), {"config": self.cfg, "qt": qt, "u": u, "v": v, "x": x, "kind": "rawpair"}, "Convert(%r,%r,%r,%r) = %r but frombase_%s(tobase_%s(x)) = %r" % (qt, u, v, x, y, v, u, w))
+                    break
         su, ou = um.slope[u], um.offset[u]
         has_conv_u = db.unit_to_unit_info[u].tobase.__has_conversion__
         # the Quantity route (cached to-base function of the source unit) gives the database's number, also right after
@@ -244,9 +260,55 @@ def _prep_values(vals):
     return res
 
 
+def project_db():
+    """A user database alive next to the shipped ones whose units reuse shipped symbols with other
+    definitions (a 365-day year 'a' on a day base, a 'ft' of 0.5 m, a Celsius with another offset)."""
+    from barril.units import UnitDatabase
+
+    db = UnitDatabase()
+    db.AddUnitBase("time", "day", "d")
+    db.AddUnit("time", "year of 365 days", "a", "%f / 365.0", "%f * 365.0")
+    db.AddUnit("time", "week", "wk", "%f / 7.0", "%f * 7.0")
+    db.AddUnit("time", "second", "s", "%f * 86400.0", "%f / 86400.0")
+    db.AddUnitBase("length", "meters", "m")
+    db.AddUnit("length", "feet", "ft", "%f * 2.0", "%f / 2.0")
+    db.AddUnit("length", "kilometers", "km", lambda x: x / 250.0, lambda x: x * 250.0)
+    db.AddUnitBase("temperature", "Kelvin", "K")
+    db.AddUnit("temperature", "Celsius", "degC", "%f - 100.0", "%f + 100.0")
+    for qt in ("time", "length", "temperature"):
+        db.AddCategory(qt, qt)
+    return db
+
+
+def run_cross_database(spec, ctx):
+    """Two databases alive at once: the user database converts first, then the shipped table; every
+    database must answer from its own definitions (and the other way round)."""
+    vals = _prep_values([1.0, -2.5, 0.0, 365.25, 1e6, 3.0 + spec["seed"]])
+    for order in (("project", "posc"), ("posc", "project"), ("project", "posc_nocat")):
+        dbs = {}
+        for name in order:
+            dbs[name] = project_db() if name == "project" else env.new_db(name)
+        for rnd in range(2):
+            for name in order:
+                db = dbs[name]
+                with env.pushed(db):
+                    sw = Sweep(ctx, "%s(next to %s)" % (name, "+".join(n for n in order if n != name)), db)
+                    for qt in ("time", "length", "temperature"):
+                        if qt not in db.quantity_types:
+                            continue
+                        sw.unit_checks(qt, vals)
+                        for info in db.quantity_types[qt]:
+                            sw.row_checks(qt, info.unit, vals, [1, 2])
+                    ctx.cls("cross_database_sweeps")
+    ctx.exhaustive["two databases alive at once sharing unit symbols (time, length, temperature), both orders"] = "all pairs"
+
+
 def run_shard(spec, ctx):
     from hypothesis import given, strategies as st
 
+    if spec.get("config") == "cross":
+        run_cross_database(spec, ctx)
+        return
     cfg = spec["config"]
     tier = spec["tier"]
     db = env.new_db(cfg)
@@ -328,12 +390,19 @@ def run_shard(spec, ctx):
 
 def replay(case, ctx):
     cfg = case["config"]
+    if "next to" in cfg:
+        run_cross_database({"seed": 1}, ctx)
+        return ["%s: %s" % (k, v["msg"]) for k, v in ctx.violations.items()]
     db = env.new_db(cfg)
     with env.pushed(db):
         sw = Sweep(ctx, cfg, db)
         qt = case["qt"]
         kind = case["kind"]
-        if kind == "qroute":
+        if kind == "rawpair":
+            sw.unit_checks(qt, _prep_values(gen.EDGE_VALUES))
+            sw.bad_units.discard(case["u"])
+            sw.row_checks(qt, case["u"], _prep_values([case["x"], 1.0, 2.0]), [1])
+        elif kind == "qroute":
             sw.unit_checks(qt, _prep_values(gen.EDGE_VALUES))
             sw.bad_units.discard(case["u"])
             sw.row_checks(qt, case["u"], _prep_values([case["x"], 1.0, 2.0]), [1])
